@@ -375,6 +375,12 @@ class PointsTo:
                 for i, a in enumerate(args):
                     self._set_slot(t, i, self.elems(a))
             return {o}
+        if name in ("functools.reduce", "reduce") and len(args) >= 2:
+            # the result is the start value or something the folding function made of the accumulator and the elements;
+            # never the iterated container itself
+            out = set(args[2]) if len(args) > 2 else set()
+            out |= self.elems(args[1])
+            return out
         if isinstance(c.func, ast.Attribute):
             recv = g(c.func.value)
             m = c.func.attr
